@@ -71,7 +71,7 @@ def rec_id(f, v):
     if rt in ("L", "C"):
         for t in rec_tags(f, v):
             if t.startswith("ID:Z:"):
-                return t[5:]
+                return t[5:] if t[5:] != "*" else None
     return None
 
 
